@@ -11,6 +11,68 @@ def _rename(u, name, claim_prefix):
     return v
 
 
+def unit_optim_cell():
+    """the optimised evaluation fills, for one target column, exactly the cells the plain pairwise evaluation would, with the same (variable pair, sample) arguments"""
+    from tools.vf import Fn, Unit
+    BOOL = "typedef _Bool bool;\n#define true 1\n#define false 0\n"
+    pre = BOOL + """
+#define SAMED(x, y) ((x) == (y) || ((x) != (x) && (y) != (y)))
+#define NV 2
+#define NS 2
+#define NR (NV * NS)
+#define NC 3
+int ivars_n, ivars_a[NV], index1_n[NV], index1_a[NV][NS]; double RES[NR][NC];
+double __CPROVER_uninterpreted_sill(int, int); double __CPROVER_uninterpreted_dist(int); double __CPROVER_uninterpreted_cor(double); double __CPROVER_uninterpreted_prod(double, double); double __CPROVER_uninterpreted_sum(double, double);    /* EOperator::ADD */
+static double VF_sill(int i, int j) { return __CPROVER_uninterpreted_sill(i, j); }
+static double VF_dist(int iech) { return __CPROVER_uninterpreted_dist(iech); }          /* distance between the pre-projected sample iech and the pre-projected target */
+static double VF_cor(double h) { return __CPROVER_uninterpreted_cor(h); }
+static double VF_prod(double a, double b) { return __CPROVER_uninterpreted_prod(a, b); }  /* sill * correlation (floating-point product kept symbolic) */
+static void VF_add(int irow, int icol, double v) { __CPROVER_assert(0 <= irow && irow < NR && 0 <= icol && icol < NC, "cell inside the matrix"); RES[irow][icol] = __CPROVER_uninterpreted_sum(RES[irow][icol], v); }
+"""
+    f = Fn("CovAniso::evalOptimInPlace", "src/Covariances/CovAniso.cpp", r"^void CovAniso::evalOptimInPlace\(MatrixRectangular& res,[^{]*?bool flagSym\) const\s*$",
+           csig="void CovAniso_evalOptimInPlace(int ivar2, int icol, bool flagSym)",
+           rewrites=[(r"\(int\) ivars\.size\(\)", "ivars_n", 1), (r"ivars\[(\w+)\]", r"ivars_a[\1]", 1),
+                     (r"\(int\) index1\[(\w+)\]\.size\(\)", r"index1_n[\1]", 1), (r"index1\[(\w+)\]\[(\w+)\]", r"index1_a[\1][\2]", 1),
+                     (r"mode == nullptr \|\| ! mode->getUnitary\(\)", "!W_unitary", 1),
+                     (r"_sill\.getValue\(", "VF_sill(", 1), (r"_p2A\.getDistance\(_p1As\[(\w+)\]\)", r"VF_dist(\1)", 1),
+                     (r"_evalCorFromH\((\w+), mode\)", r"VF_cor(\1)", 1),
+                     (r"res\.updValue\((\w+), (\w+), EOperator::ADD, sill \* cov\);", r"VF_add(\1, \2, VF_prod(sill, cov));", 1)])
+    h = """
+double OLD[NR][NC];
+void vf_harness(void)
+{
+  vf_havoc_inputs();
+  ivars_n = W_nvar; __CPROVER_assume(1 <= ivars_n && ivars_n <= NV);
+  for (int v = 0; v < NV; v++) { ivars_a[v] = W_ivars[v]; index1_n[v] = W_n1[v]; __CPROVER_assume(0 <= index1_n[v] && index1_n[v] <= NS); for (int k = 0; k < NS; k++) index1_a[v][k] = W_index1[v * NS + k]; }
+  __CPROVER_assume(0 <= W_icol && W_icol < NC);
+  for (int r = 0; r < NR; r++) for (int c = 0; c < NC; c++) { RES[r][c] = W_res[r * NC + c]; OLD[r][c] = RES[r][c]; }
+  CovAniso_evalOptimInPlace(W_ivar2, W_icol, W_flagSym);
+  int row = 0;
+  for (int v = 0; v < NV; v++) if (v < ivars_n) for (int k = 0; k < NS; k++) if (k < index1_n[v]) {
+    bool filled = !W_flagSym || row <= W_icol;
+    double sill = W_unitary ? 1. : __CPROVER_uninterpreted_sill(ivars_a[v], W_ivar2);
+    double expect = filled ? __CPROVER_uninterpreted_sum(OLD[row][W_icol], __CPROVER_uninterpreted_prod(sill, __CPROVER_uninterpreted_cor(__CPROVER_uninterpreted_dist(index1_a[v][k])))) : OLD[row][W_icol];
+    __CPROVER_assert(SAMED(RES[row][W_icol], expect), "row (variable v, its k-th valid sample) of the target column receives sill(v, target variable) x correlation(distance to THAT sample); only the upper triangle in symmetric mode");
+    row++; }
+  for (int r = 0; r < NR; r++) for (int c = 0; c < NC; c++) if (c != W_icol || r >= row) __CPROVER_assert(SAMED(RES[r][c], OLD[r][c]), "no other cell is touched");
+  VF_REACH();
+}
+"""
+    return Unit("C04.evalOptimInPlace.cells", [f], prelude=pre, harness=h, pre_inputs=BOOL, unwind=NRC_UNWIND,
+                inputs=[("int", "W_nvar"), ("int", "W_ivars", "2"), ("int", "W_n1", "2"), ("int", "W_index1", "4"), ("int", "W_ivar2"), ("int", "W_icol"), ("bool", "W_flagSym"),
+                        ("bool", "W_unitary"), ("double", "W_res", "12")],
+                checks=["--bounds-check", "--pointer-check", "--signed-overflow-check"], backends=("minisat", "cadical"), timeout=600,
+                bounded="at most 2 variables with 2 valid samples each, 3 columns (unwinding assertions)",
+                claim=("CovAniso::evalOptimInPlace (the kernel of the optimised covariance-matrix evaluation): for one target column, the row of (variable v, its k-th valid "
+                       "sample) receives sill(v, target variable) x correlation(distance between the target and THAT sample), rows enumerated variable by variable in "
+                       "the order of the valid-sample lists - the cell the plain pairwise evaluation fills with the same arguments; symmetric mode fills the upper "
+                       "triangle only; nothing else is touched"),
+                assumptions=["BOUNDED stand-in", "sill, pre-projected distance, correlation function and the floating-point product and sum are uninterpreted functions (values trusted)"],
+                canaries=[{"fn": "CovAniso::evalOptimInPlace", "rx": r"_sill\.getValue\(ivar1, ivar2\)", "rp": "_sill.getValue(ivar2, ivar2)", "expect": r"assertion"}])
+
+NRC_UNWIND = 6
+
+
 def units(tier):
     nmax = 6 if tier == "quick" else 10
     out = []
@@ -18,6 +80,7 @@ def units(tier):
     out.append(_rename(C10.unit_optim_pairing(), "C04.evalCovMatrixOptim.pairing", "[optimised covariance evaluation leaves no cache behind: the next (plain or optimised) call starts clean] "))
     out.append(_rename(C06.unit_nheap_push(nmax), "C04.ball.nheap_push", "[ball-tree k-NN keeps the k smallest candidates] "))
     out.append(_rename(C06.unit_sort_order(nmax), "C04.ball.sort.order", "[ball-tree k-NN results in increasing distance order] "))
+    out.append(unit_optim_cell())
     return out
 
 
@@ -28,7 +91,7 @@ META = {
                     "shortcut, block with one point, collocated, Schur forms) are not decidable with contracts."),
     "trusted_base": ["see C06 / C10"],
     "assumptions": [],
-    "not_covered": ["equality of optimised and plain covariance VALUES", "unique vs moving neighbourhood", "cross-validation shortcut", "block kriging with one discretisation point",
+    "not_covered": ["equality of optimised and plain covariance VALUES (only the cell/argument bookkeeping of the optimised kernel)", "unique vs moving neighbourhood", "cross-validation shortcut", "block kriging with one discretisation point",
                     "collocated cokriging", "tree construction and depth-first query (pruning) of the ball tree", "CalcMigrate::_expandPointToPointBall"],
 }
 MANIFEST = {
